@@ -355,7 +355,7 @@ theorem stmt_mssql_columnName (r : Str → Bool) (g : Tgt) (col new : Name) (hg 
     (hc : NameOK .mssql col) (hn : NameOK .mssql new) : Good .mssql r (.columnName g col new) := by
   have hpk := ok_tblColP .mssql g col hg hc
   obtain ⟨hne, hnames, hitem⟩ := hpk
-  have hm0 := match0_chain r (schemaNames g ++ [g.t, col]) (schemaOf g) [g.t.s, col.s] hne hnames (by simpa [itemOk] using hitem)
+  have hm0 := match0_chain r (schemaNames g ++ [g.t, col]) (schemaParts g) [g.t.s, col.s] hne hnames (by simpa [itemOk] using hitem)
   have h2 := ok_nameP .mssql new hn
   let ps : List Piece := [L ", " ",", nameP new]
   have hps := pieces_ok_more .mssql r ps [T ",", .strIs "COLUMN".toList] ", 'COLUMN';".toList (by rfl)
@@ -376,15 +376,15 @@ theorem stmt_mssql_columnName (r : Str → Bool) (g : Tgt) (col new : Name) (hg 
   have hfin : matchItems .mssql r [T ",", .strIs "COLUMN".toList] (lexFrom .mssql .none ", 'COLUMN';".toList) =
       some (lex .mssql (terminator .mssql)) := by rfl
   have hlex1 : lex .mssql "EXEC sp_rename ".toList = lex .mssql "EXEC sp_rename".toList := by decide
-  have hitems : ([T "EXEC sp_rename", Item.strSql [.ref (schemaOf g) [g.t.s, col.s]], T ",", nameRef new, T ",",
+  have hitems : ([T "EXEC sp_rename", Item.strSql [.ref (schemaParts g) [g.t.s, col.s]], T ",", nameRef new, T ",",
       Item.strIs "COLUMN".toList] : List Item) =
-      T "EXEC sp_rename" :: Item.strSql [.ref (schemaOf g) [g.t.s, col.s]] :: (itemsPs ps ++ [T ",", .strIs "COLUMN".toList]) := by
+      T "EXEC sp_rename" :: Item.strSql [.ref (schemaParts g) [g.t.s, col.s]] :: (itemsPs ps ++ [T ",", .strIs "COLUMN".toList]) := by
     simp [ps, itemsPs, itemsP, L, T, nameP, nameRef]
   unfold emittedOk
   rw [lex, e, hl1, hl2, hlex1, hitems]
   simp only [T, match_text]
   simp only [matchItems]
-  have hm0' : match0 .mssql r [.ref (schemaOf g) [g.t.s, col.s]] (lex .mssql (renderP .mssql r (tblColP g col))) = some [] := hm0
+  have hm0' : match0 .mssql r [.ref (schemaParts g) [g.t.s, col.s]] (lex .mssql (renderP .mssql r (tblColP g col))) = some [] := hm0
   simp only [hm0', beq_self_eq_true, if_true]
   simp only [T] at hps hfin
   rw [hps, hfin]
@@ -395,7 +395,7 @@ theorem stmt_mssql_renameTable (r : Str → Bool) (g : Tgt) (new : Name) (hg : T
     (hn : NameOK .mssql new) : Good .mssql r (.renameTable g new) := by
   have hpk := ok_tblP .mssql g hg
   obtain ⟨hne, hnames, hitem⟩ := hpk
-  have hm0 := match0_chain r (schemaNames g ++ [g.t]) (schemaOf g) [g.t.s] hne hnames (by simpa [itemOk] using hitem)
+  have hm0 := match0_chain r (schemaNames g ++ [g.t]) (schemaParts g) [g.t.s] hne hnames (by simpa [itemOk] using hitem)
   have h2 := ok_nameP .mssql new hn
   let ps : List Piece := [L ", " ",", nameP new]
   have hps := pieces_ok_more .mssql r ps [] (terminator .mssql) (by rfl)
@@ -412,14 +412,14 @@ theorem stmt_mssql_renameTable (r : Str → Bool) (g : Tgt) (new : Name) (hg : T
   have hl2 := lex_quotedLiteral (renderP .mssql r (tblP g)) (renderPs .mssql r ps ++ terminator .mssql)
     (by simp [ps, renderPs, render_L])
   have hlex1 : lex .mssql "EXEC sp_rename ".toList = lex .mssql "EXEC sp_rename".toList := by decide
-  have hitems : ([T "EXEC sp_rename", Item.strSql [.ref (schemaOf g) [g.t.s]], T ",", nameRef new] : List Item) =
-      T "EXEC sp_rename" :: Item.strSql [.ref (schemaOf g) [g.t.s]] :: (itemsPs ps ++ []) := by
+  have hitems : ([T "EXEC sp_rename", Item.strSql [.ref (schemaParts g) [g.t.s]], T ",", nameRef new] : List Item) =
+      T "EXEC sp_rename" :: Item.strSql [.ref (schemaParts g) [g.t.s]] :: (itemsPs ps ++ []) := by
     simp [ps, itemsPs, itemsP, L, T, nameP, nameRef]
   unfold emittedOk
   rw [lex, e, hl1, hl2, hlex1, hitems]
   simp only [T, match_text]
   simp only [matchItems]
-  have hm0' : match0 .mssql r [.ref (schemaOf g) [g.t.s]] (lex .mssql (renderP .mssql r (tblP g))) = some [] := hm0
+  have hm0' : match0 .mssql r [.ref (schemaParts g) [g.t.s]] (lex .mssql (renderP .mssql r (tblP g))) = some [] := hm0
   simp only [hm0', beq_self_eq_true, if_true]
   rw [hps]
   simp [matchItems, lex]
